@@ -50,7 +50,7 @@ try:
         for d in demos:
             os.remove(os.path.join(wt, 'tests', os.path.basename(d)))
     # run every check against the patched tree
-    cenv = dict(os.environ, BP_REPO=wt)
+    cenv = dict(os.environ, BP_REPO=wt, BP_EVIDENCE_DIR=os.path.join(wt, 'evidence_scratch'))
     verdicts = {}
     for f in sorted(glob.glob(os.path.join(HERE, 'rules', 'C[0-9][0-9].py'))):
         cid = os.path.basename(f)[:-3]
